@@ -1,15 +1,17 @@
 #!/bin/bash
-# tools/try_mutant.sh <patch.diff> <check id>...   apply a seeded change to /repo, run checks, undo.
+# tools/try_mutant.sh <patch.diff> <check id>...   apply a seeded change to $MX_REPO (default /repo), run the checks of
+# $MX_VERIF (default /verif; use the isolated copy made by tools/mkiso.sh), undo.
 set -u
 PATCH="$1"; shift
-cd /repo || exit 2
+REPO=${MX_REPO:-/repo}; VERIF=${MX_VERIF:-/verif}
+cd "$REPO" || exit 2
 if [ -n "$(git status --porcelain --untracked-files=no)" ]; then echo "repo dirty"; exit 2; fi
 if ! git apply --3way "$PATCH" 2>/tmp/apply.err; then
   if ! git apply "$PATCH" 2>>/tmp/apply.err; then echo "APPLY-FAILED $(head -3 /tmp/apply.err | tr '\n' ' ')"; git reset -q --hard HEAD; exit 3; fi
 fi
 git reset -q
 for id in "$@"; do
-  out=$(cd /verif && timeout ${MUT_TIMEOUT:-900} bin/check "$id" ${MUT_TIER:-quick} 2>&1)
+  out=$(cd "$VERIF" && timeout ${MUT_TIMEOUT:-900} bin/check "$id" ${MUT_TIER:-quick} 2>&1)
   rc=$?
   summary=$(echo "$out" | grep -E "^$id (quick|thorough):" | tail -1)
   viol=$(echo "$out" | grep -A1 "^VIOLATION" | grep -v "^VIOLATION\|^--" | head -1 | cut -c1-220)
